@@ -478,7 +478,68 @@ def register_param_where(c, V, n, name):
     return KK, WW, PP
 
 
+def register_pred_where(c, pred, n, name):
+    """Declare np.where(mask_key)[0] as a *function of key* for the family of masks  mask_key[i] = pred(i, key)  of length n:
+    KK(key) = number of hits, WW(key, q) = q-th hit, PP(key, i) = rank of hit i.  Same ASSUMED contract as where() (np.where is a
+    function of its argument), quantified over key."""
+    KK = z3.Function('KK_' + name, I, I)
+    WW = z3.Function('WW_' + name, I, I, I)
+    PP = z3.Function('PP_' + name, I, I, I)
+    k, j, j2, i = z3.Ints('qwk qwj qwj2 qwi')
+    nn = z3.If(n >= 0, n, 0)
+    c.assume(z3.ForAll([k], z3.And(0 <= KK(k), KK(k) <= nn), patterns=[KK(k)]))
+    c.assume(z3.ForAll([k, j], z3.Implies(z3.And(0 <= j, j < KK(k)), z3.And(0 <= WW(k, j), WW(k, j) < n, pred(WW(k, j), k))), patterns=[WW(k, j)]))
+    c.assume(z3.ForAll([k, j, j2], z3.Implies(z3.And(0 <= j, j < j2, j2 < KK(k)), WW(k, j) < WW(k, j2)), patterns=[z3.MultiPattern(WW(k, j), WW(k, j2))]))
+    c.assume(z3.ForAll([k, i], z3.Implies(z3.And(0 <= i, i < n, pred(i, k)), z3.And(0 <= PP(k, i), PP(k, i) < KK(k), WW(k, PP(k, i)) == i)), patterns=[PP(k, i)]))
+    c.ghost.setdefault('pred_where', []).append((pred, n, KK, WW, PP))
+    return KK, WW, PP
+
+
+def _int_consts(e, out, seen):
+    if e.get_id() in seen:
+        return
+    seen.add(e.get_id())
+    if z3.is_const(e) and e.decl().kind() == z3.Z3_OP_UNINTERPRETED and e.sort() == I:
+        out.append(e)
+    for ch in e.children():
+        _int_consts(ch, out, seen)
+
+
+def _pred_where(c, b, n, ci):
+    """the mask is (semantically) a member of a registered family: return the family's index list at that key"""
+    regs = c.ghost.get('pred_where')
+    if not regs:
+        return None
+    e = z3.simplify(b.elem(ci))
+    cands = []
+    _int_consts(e, cands, set())
+    for pred, vn, KK, WW, PP in regs:
+        if not _eq(vn, n):
+            continue
+        for key in cands:
+            if z3.eq(key, ci):
+                continue
+            f = z3.simplify(pred(ci, key))
+            same = z3.eq(f, e)
+            if not same:
+                sl = z3.Solver()
+                sl.set('timeout', 300)
+                sl.add(f != e)
+                same = sl.check() == z3.unsat
+            if same:
+                res = SArr((KK(key),), lambda jx, key=key: WW(key, jx), 'i', incr=True)
+                res.member = lambda v, key=key: z3.And(0 <= v, v < n, pred(v, key))
+                res.where_of = b
+                res.pos = lambda i_, key=key: PP(key, i_)
+                res.nonneg = True
+                return res
+    return None
+
+
 def _param_where(c, b, n, ci):
+    pw = _pred_where(c, b, n, ci)
+    if pw is not None:
+        return pw
     regs = c.ghost.get('param_where')
     if not regs:
         return None
